@@ -281,6 +281,7 @@ pub struct StRunner {
     pub prop: String,
     pub dir: String,
     pub committed: Vec<u8>,
+    pub committed2: Vec<u8>,
     pub crash_points: u64,
     pub torn_points: u64,
     pub thorough: bool,
@@ -299,6 +300,7 @@ impl StRunner {
             prop: prop.into(),
             dir: dir.into(),
             committed: vec![],
+            committed2: vec![],
             crash_points: 0,
             torn_points: 0,
             thorough: false,
@@ -312,8 +314,8 @@ impl StRunner {
         let crash = self.prop == "C01";
         let mut outs: Vec<String> = vec![];
         for k in 0..self.backends.len() {
-            if crash && k == 1 {
-                outs.push(self.step_file_with_crash_oracle(out, t, line));
+            if crash && k >= 1 {
+                outs.push(self.step_file_with_crash_oracle(out, t, line, k));
             } else {
                 outs.push(self.backends[k].step(t));
             }
@@ -378,26 +380,26 @@ impl StRunner {
     /// C01 at the Storage level: run the op on the real FileStorage-backed Storage with the fs hook
     /// installed; every pre-call state (and torn variants) must reopen to the data-file content at
     /// the last moment the implementation's own transaction depth was 0.
-    fn step_file_with_crash_oracle(&mut self, out: &mut Out, t: &[&str], line: &str) -> String {
+    fn step_file_with_crash_oracle(&mut self, out: &mut Out, t: &[&str], line: &str, bk: usize) -> String {
         use std::cell::RefCell;
         use std::rc::Rc;
         let snaps: Rc<RefCell<Vec<(Vec<u8>, Vec<u8>, &'static str, &'static str, u64, Vec<u8>)>>> = Rc::new(RefCell::new(vec![]));
         let is_new = t[0] == "new";
         if !is_new {
-            let (dp, wp) = self.backends[1].files();
+            let (dp, wp) = self.backends[bk].files();
             let sn = snaps.clone();
             agdb::verif::set_fs_hook(Some(Box::new(move |file, op, pos, bytes| {
                 if op == "read_locked" { return; }
                 sn.borrow_mut().push((std::fs::read(&dp).unwrap_or_default(), std::fs::read(&wp).unwrap_or_default(), file, op, pos, bytes.to_vec()));
             })));
         }
-        let o = self.backends[1].step(t);
+        let o = self.backends[bk].step(t);
         agdb::verif::set_fs_hook(None);
         let snaps = Rc::try_unwrap(snaps).ok().unwrap().into_inner();
         if !(t[0] == "reopen") {
             for (i, (d, w, file, op, pos, bytes)) in snaps.iter().enumerate() {
                 self.crash_points += 1;
-                self.check_reopen(out, d, w, &format!("`{line}` before fs call {i}: {file} {op} pos={pos} len={}", bytes.len()));
+                self.check_reopen(out, bk, d, w, &format!("`{line}` before fs call {i}: {file} {op} pos={pos} len={}", bytes.len()));
                 let n = bytes.len();
                 if n < 2 { continue; }
                 let ks: Vec<usize> = if self.thorough || n <= 4 { (1..n).collect() } else { vec![1, n / 2, n - 1] };
@@ -409,35 +411,42 @@ impl StRunner {
                         if d2.len() < p + k { d2.resize(p + k, 0); }
                         d2[p..p + k].copy_from_slice(&bytes[..k]);
                     }
-                    self.check_reopen(out, &d2, &w2, &format!("`{line}` torn fs call {i}: {file} {op} pos={pos} after {k} of {n} bytes"));
+                    self.check_reopen(out, bk, &d2, &w2, &format!("`{line}` torn fs call {i}: {file} {op} pos={pos} after {k} of {n} bytes"));
                 }
             }
         }
         // the implementation's own depth decides what "committed" means
         let txn0 = o.split(' ').any(|x| x == "txn=0");
         if txn0 || is_new {
-            let (dp, _) = self.backends[1].files();
-            self.committed = std::fs::read(&dp).unwrap_or_default();
+            let (dp, _) = self.backends[bk].files();
+            let c = std::fs::read(&dp).unwrap_or_default();
+            if bk == 1 { self.committed = c; } else { self.committed2 = c; }
         }
         o
     }
 
-    fn check_reopen(&mut self, out: &mut Out, data: &[u8], wal: &[u8], what: &str) {
+    fn check_reopen(&mut self, out: &mut Out, bk: usize, data: &[u8], wal: &[u8], what: &str) {
+        let committed = if bk == 1 { self.committed.clone() } else { self.committed2.clone() };
         let base = format!("{}/crashcopy", self.dir);
         let wp = format!("{}/.crashcopy", self.dir);
         std::fs::write(&base, data).unwrap();
         std::fs::write(&wp, wal).unwrap();
         let r = guarded(|| -> Result<Vec<u8>, String> {
-            let s = FileStorage::new(&base).map_err(|e| format!("err:{}", e.description))?;
-            let len = s.len();
-            let b = s.read(0, len).map_err(|e| format!("err:{}", e.description))?.to_vec();
-            Ok(b)
+            if bk == 1 {
+                let s = FileStorage::new(&base).map_err(|e| format!("err:{}", e.description))?;
+                let len = s.len();
+                Ok(s.read(0, len).map_err(|e| format!("err:{}", e.description))?.to_vec())
+            } else {
+                let s = FileStorageMemoryMapped::new(&base).map_err(|e| format!("err:{}", e.description))?;
+                let len = s.len();
+                Ok(s.read(0, len).map_err(|e| format!("err:{}", e.description))?.to_vec())
+            }
         });
         let _ = std::fs::remove_file(&base);
         let _ = std::fs::remove_file(&wp);
         match r {
-            Ok(Ok(b)) if b == self.committed => {}
-            Ok(Ok(b)) => out.violation("C01/recovered-content-differs/Storage", &format!("crash state ({what}) must reopen to the content at the last completed outermost storage transaction"), format!("{} bytes fnv={:016x}", self.committed.len(), { let mut f = Fnv::new(); f.bytes(&self.committed); f.0 }), format!("{} bytes fnv={:016x}", b.len(), { let mut f = Fnv::new(); f.bytes(&b); f.0 })),
+            Ok(Ok(b)) if b == committed => {}
+            Ok(Ok(b)) => out.violation("C01/recovered-content-differs/Storage", &format!("crash state ({what}) must reopen to the content at the last completed outermost storage transaction"), format!("{} bytes fnv={:016x}", committed.len(), { let mut f = Fnv::new(); f.bytes(&committed); f.0 }), format!("{} bytes fnv={:016x}", b.len(), { let mut f = Fnv::new(); f.bytes(&b); f.0 })),
             Ok(Err(e)) => out.violation("C01/reopen-fails/Storage", &format!("crash state ({what}) must reopen"), "ok".into(), e),
             Err(p) => out.violation("C01/reopen-panics/Storage", &format!("crash state ({what}) must reopen"), "ok".into(), p),
         }
